@@ -147,6 +147,7 @@ reg("empty", _c("default", A()), _c("recurse", A(recurse=True)))
 reg("clone copy", _c("default", A()))
 reg("clone", _c("norecurse", A(False)))
 reg("cat_tensors stack_tensors", _c("xx", A("x", "x", out_key="o")))
+reg("cat_tensors stack_tensors", _c("xx-last-dim-keep", A("x", "x", out_key="o", dim=-1, keep_entries=True)))
 reg("cat_from_tensordict stack_from_tensordict", _c("default", A()))
 reg("filter_non_tensor_data filter_empty_ clear", _c("default", A()))
 reg("apply apply_", _c("plus1", A(plus1)))
